@@ -308,6 +308,14 @@ class P2PConnection:
                 self.address,
                 telegram,
             )
+            if (
+                isinstance(telegram.tpci, TDataConnected)
+                and telegram.tpci.sequence_number == self._expected_sequence_number
+            ):
+                # it was acknowledged, so the peer has moved on to the next number
+                self._expected_sequence_number = (
+                    self._expected_sequence_number + 1 & 0xF
+                )
             return
         if not isinstance(telegram.tpci, TDataConnected):
             # only numbered data can answer a request - other TPCIs carry no
